@@ -46,8 +46,14 @@ CHECKS = {
             "the fault's operation index and the short-write length are solver variables; fault kind and request are configurations"),
     "C18": ("5/C18", "symbolic execution (symx) of cli.execute -> commands.info/recheck/magnet/create/rename on the abstract filesystem with mutation log (closed-world import guard); final-state and log obligations; z3",
             "file sizes and damage positions are solver variables, so the log is judged on every iterator path; argument vectors are configurations"),
+    "C13": ("5/C13-C14", "symbolic execution (symx) of Assembler/Metadata/PieceNode/_index_contents/copypath/HasherV2 on a writable abstract filesystem: symbolic sizes and listing orders, decoys; final-state obligations; z3",
+            "file sizes and directory listing orders are solver variables; search layouts and decoy placement are configurations"),
+    "C14": ("5/C13-C14", "symbolic execution (symx) of the rebuild on the AFS mutation log: every mkdir/copy judged, protected destination files, second rebuild idempotent; z3",
+            "file sizes, the length of a pre-existing shorter destination file and listing orders are solver variables"),
     "C15": ("5/C15", "symbolic execution (symx) of TorrentFile(align=True)/Hasher vs gap arithmetic and BEP 3 reference; z3",
             "file sizes and listing order are solver variables; modulo by a concrete piece length stays linear"),
+    "C19": ("5/C19", "symbolic execution (symx) of the rebuild with hostile torrent names / path elements (finite family from the property) on the AFS mutation log; symbolic sizes cover every path to the copy; z3",
+            "file sizes are solver variables; hostile strings are the property's own finite family"),
     "C20": ("5/C20", "symbolic execution (symx) of commands.create/parse_config_file/MetaFile.__init__ through three routes (argparse contract learnt from the real parser, INI mapping, keywords) on opaque option values; z3",
             "option values are opaque strings with forked true/false/emptiness observations; payload size is a solver variable; argument orders are configurations"),
 }
